@@ -33,4 +33,48 @@ REG = {
   note="Trusted: TLC, frozen ES5 tables (cross-checked against Unicode categories). Extents of malformed lexemes are unpinned.",
   technique="TLA+ lexical specification model-checked with TLC; bounded-exhaustive replay into the real scanner and parser",
   design="DESIGN.md section 4/C14"),
+ "C03": dict(
+  text="FEval gives every formula an outcome in {value, error} (misuse listed by the statement pinned to 'error', unpinned cells "
+       "marked 'unspec' = any value or error); TLC checks EvalTotal on the specification over every builtin / host function x "
+       "argument tuples of every value kind x spread, every operator x operand pair, member access and calls of non-functions; "
+       "each case is replayed under recover + watchdog: a panic, a hang, or a value together with an error never conforms.",
+  note="Trusted: TLC, value projection (harness/proj). Bounded family, not all programs; random deeper programs are future work.",
+  technique="TLA+ evaluator specification (FEval/FBuiltins) model-checked with TLC; bounded-exhaustive replay into the real evaluator",
+  design="DESIGN.md section 4/C03"),
+ "C05": dict(
+  text="FEval's comparison cells (numeric order by exact decimal comparison independent of spelling, bytewise string order, "
+       "StrictEq, negations, == = === on same kinds) evaluated by TLC on all ordered pairs of 46 value spellings x 8 operators "
+       "and replayed into the real evaluator.",
+  note="Trusted: TLC, FDecimal digit arithmetic (self-checked by MC_Decimal when C04 is run). Cross-kind cells unpinned.",
+  technique="TLA+ value/evaluator specification checked with TLC; exhaustive pair grid replayed into the real evaluator",
+  design="DESIGN.md section 4/C05"),
+ "C06": dict(
+  text="One Truthy operator in FEval drives !!, !, ?:, &&, ||, ??; TLC checks FalsyExactly and OnlySelectedBranch on the "
+       "specification for 32 condition expressions x branch expressions with side effects x 6 operators (alone and nested) and "
+       "every case is replayed: selected operand's value unchanged, only the selected branch's effects (locals, host-call log).",
+  note="Trusted: TLC, value projection. Evaluation of the unselected operand of && || ?? is unpinned when observable.",
+  technique="TLA+ evaluator specification model-checked with TLC; exhaustive replay with recording host functions",
+  design="DESIGN.md section 4/C06"),
+ "C07": dict(
+  text="Store-passing FEval: `$n = e` binds in the runner's map, `,` / array elements / arguments left to right, invalid targets "
+       "are errors; TLC checks the Frame invariant (only `$` entries are added or changed) on every program of the family and each "
+       "is replayed: value, host-call order, map afterwards, plus a deep before/after snapshot of the caller's data "
+       "(pointer identity and digits of every reachable number).",
+  note="Trusted: TLC, the snapshot function of the driver. Later evaluations by the same runner are covered by the runner model (C20).",
+  technique="TLA+ store-passing evaluator specification model-checked with TLC; exhaustive replay + deep data snapshots",
+  design="DESIGN.md section 4/C07"),
+ "C10": dict(
+  text="FFields defines the read paths (lower) and read-or-assigned paths (upper), refusal, the non-local subset, called names and "
+       "use of `this`; TLC checks Sufficiency (restricted data map gives the same outcome) on the specification; the real "
+       "analysis functions are compared as sets (no duplicates, lower <= reported <= upper) and the real evaluator is run on the "
+       "full and on the restricted data map.",
+  note="Trusted: TLC, tree projection (the compared tree comes from the real parser).",
+  technique="TLA+ field-analysis + evaluator specification model-checked with TLC; exhaustive replay into the real analysis and evaluator",
+  design="DESIGN.md section 4/C10"),
+ "C16": dict(
+  text="FEval.Member and identifier resolution (builtin first, then data, else null; typed nil = null; Go ints/floats = numbers) "
+       "evaluated by TLC on 15 roots x all dotted paths (depth <= 3) with . and !. and replayed into the real evaluator.",
+  note="Trusted: TLC, value projection, data builder (harness/data). Member access on scalars/arrays/functions unpinned.",
+  technique="TLA+ evaluator specification checked with TLC; exhaustive path enumeration replayed into the real evaluator",
+  design="DESIGN.md section 4/C16"),
 }
